@@ -97,6 +97,8 @@ def check(run: Run) -> None:
     from ..report import run_stage
 
     run_stage(run, "c09", only={"C09.R7"})
+    run.rule("C13.R6", "every name found in the capture snapshot is embedded, whatever its value (membership, not truthiness, decides): C04.R3 re-evaluated - a captured 0, False or '' must not stay a free name")
+    run_stage(run, "c04", only={"C04.R3"})
 
     # ---------------- R2
     _check_entry_points(run, ctx, m)
